@@ -90,4 +90,7 @@ theorem connect_complete_write_log (c : Client) (env : ConnEnv) (net : Net) (l p
       (auth = [] ∨ ∃ mech, auth = authLines mech l p z) :=
   connect_write_log c env net l p z useTls m
 
+/-- the regular expressions `sievelib/managesieve.py` uses now are the ones the model implements -/
+theorem client_patterns_are_the_modelled_ones : Generated.clientPatterns = Client.patterns := by decide
+
 end C10
